@@ -52,6 +52,36 @@ def h_maverage(ctx, cfg):
     ctx.prove(inv == Fraction(1, size), "power-of-two-size-is-exact")
 
 
+def h_shared_tool(ctx, cfg):
+  """One tool object (maverage(size), amdf(lag, size)) applied to two signals whose outputs are consumed interleaved
+  (as in tool(left) + tool(right)): each output stream is the formula of its own input."""
+  from audiolazy import maverage, amdf
+  N, size = cfg["N"], cfg["size"]
+  xa = ctx.reals("xa", N); xb = ctx.reals("xb", N); za = ctx.real("za"); zb = ctx.real("zb")
+  tool = cfg["tool"]
+  obj = amdf(1, size) if tool == "amdf" else maverage[tool](size)
+  sa = iter(obj(list(xa), zero=za)); sb = iter(obj(iter(list(xb)), zero=zb))
+  oa, ob = [], []
+  order = cfg["order"]                      # which stream yields at each step
+  for who in order:
+    try: (oa if who == "a" else ob).append(next(sa if who == "a" else sb))
+    except StopIteration: pass
+  oa.extend(sa); ob.extend(sb)
+  inv = _inv(size)
+  for tag, x, zero, out in (("first", xa, za, oa), ("second", xb, zb, ob)):
+    ctx.prove(len(out) == N, "one-output-per-input", "%s stream of a shared %s" % (tag, tool))
+    for n in range(min(N, len(out))):
+      acc = 0
+      for k in range(size):
+        if tool == "amdf":
+          cur = x[n - k] if n - k >= 0 else zero
+          prev = x[n - k - 1] if n - k - 1 >= 0 else zero
+          acc = acc + (abs(cur - prev) if n - k >= 0 else zero)
+        else:
+          acc = acc + (x[n - k] if n - k >= 0 else zero)
+      ctx.prove(ctx.eq(out[n], acc * inv), "streams-of-one-tool-object-are-independent", "%s stream, n=%d (%s size %d)" % (tag, n, tool, size))
+
+
 def h_accumulate(ctx, cfg):
   from audiolazy import lazy_itertools as lit
   N = cfg["N"]
@@ -219,9 +249,19 @@ def h_unwrap(ctx, cfg):
   ctx.prove(Or(Not(nojump), same), "unwrap-identity-without-jumps")
 
 
+def _shared_tasks(big):
+  T = []
+  for tool in ("deque", "recursive", "fir", "amdf"):
+    for size in (2, 3):
+      for order in ("abab", "aabb", "baab"):
+        if tool == "amdf" and (size == 3 or order != "abab") and not big: continue
+        T.append(("h_shared_tool", {"tool": tool, "size": size, "N": 3, "order": order}))
+  return T
+
+
 def tasks(tier, seed):
   big = tier == "thorough"
-  T = []
+  T = _shared_tasks(big)
   NS = (0, 3, 6) if not big else (0, 2, 5, 8)
   for N in NS:
     for size in ((1, 2, 3, 4, 5) if not big else (1, 2, 3, 4, 6, 8)):
